@@ -241,6 +241,22 @@ Fixpoint py_heappush {A} (lt : A -> A -> bool) (h : list A) (x : A) : list A :=
   | e :: r => if lt x e then x :: h else e :: py_heappush lt r x
   end.
 
+(** (Ordered)dict deletion, [move_to_end] (the key is present: the code guards it with [k in d]),
+    list membership and [list.remove] (first occurrence; present). *)
+Fixpoint ddel (d : pydict) (k : Z) : pydict :=
+  match d with
+  | [] => []
+  | (k', v) :: r => if k' =? k then r else (k', v) :: ddel r k
+  end.
+Definition dmove_end (d : pydict) (k : Z) : pydict :=
+  match dfind d k with Some v => ddel d k ++ [(k, v)] | None => d end.
+Definition py_in (l : list Z) (x : Z) : bool := existsb (Z.eqb x) l.
+Fixpoint py_remove1 (l : list Z) (x : Z) : list Z :=
+  match l with
+  | [] => []
+  | y :: r => if y =? x then r else y :: py_remove1 r x
+  end.
+
 (** [sorted(l, key=f)] with an integer key: Python's sort is stable (elements
     with equal keys keep their order). *)
 Fixpoint py_ins_by {A} (key : A -> Z) (x : A) (l : list A) : list A :=
